@@ -12,7 +12,7 @@ from hypothesis.stateful import RuleBasedStateMachine, initialize, rule, run_sta
 from sim import workload_b as W
 from sim.kernel import cjson
 
-CLIENTS = ("coder", "designer", "converter", "analyst", "shuffler", "trimmer", "rng", "clock")
+CLIENTS = ("coder", "designer", "converter", "analyst", "shuffler", "trimmer", "rng", "clock", "owner")
 
 
 class Found(Exception):
